@@ -38,7 +38,7 @@ structure ProjOracles where
   results : List (String × Bool)
   classes : List String
 
-def projectOracles (p : Project) (cfg : Gn.Config) (a : Analysis) (implFiles : Json) (generated : Json) (altTypes : Option Str := none) : ProjOracles :=
+def projectOracles (p : Project) (cfg : Gn.Config) (a : Analysis) (implFiles : Json) (generated : Json) (altTypes : Option Str := none) (verboseSame : Bool := true) : ProjOracles :=
   let specCmds := specCommands p
   let anyCommands := !(imp_commands_empty a)
   let types := fileToks implFiles "types.ts"
@@ -240,7 +240,9 @@ def projectOracles (p : Project) (cfg : Gn.Config) (a : Analysis) (implFiles : J
       match fileToks implFiles n with | some ts => idents ts | none => [])
     let mapped := cfg.mappings.filter fun m => m.1 ≠ m.2 && T.isTsIdentName m.1 && !(cfg.mappings.any fun m2 => m2.2 = m.1)
     [("c18_mapped_name_absent", mapped.all fun m => !allIds.contains m.1 && !allIds.contains (m.1 ++ cl!"Schema"))]
-  { results := c03 ++ c12 ++ c07 ++ c09 ++ c02 ++ c04 ++ c01 ++ c10 ++ c18, classes := classes }
+  -- the analysis with verbose output switched on finds the same commands, types and events
+  let c07v : List (String × Bool) := [("c07_verbose_same_analysis", verboseSame)]
+  { results := c03 ++ c12 ++ c07 ++ c07v ++ c09 ++ c02 ++ c04 ++ c01 ++ c10 ++ c18, classes := classes }
 where
   imp_commands_empty (a : Analysis) : Bool := a.commands.isEmpty
 
@@ -269,7 +271,8 @@ def opProject (inp imp : Json) : Except String Json := do
   let agree := diffA.isEmpty && diffF.isEmpty
   let generated := (imp.getObjVal? "generated").toOption.getD Json.null
   let implAlt : Option Str := match imp.getObjVal? "alt_types" with | .ok (.str t) => some t.toList | _ => none
-  let orc := projectOracles p cfg a implFiles generated implAlt
+  let verboseSame := getBoolD imp "verbose_same" true
+  let orc := projectOracles p cfg a implFiles generated implAlt verboseSame
   let modelFilesJ := Json.mkObj (modelFiles.map fun (n, t) => (n, jstr t))
   let outAlt := Gn.generate { cfg with zod := !cfg.zod } a
   let modelAlt : Option Str := if noCommands then none else some (Gn.fileText outAlt.types)
